@@ -88,7 +88,8 @@ def scenarios(tier, seed):
             if len(nodes) == 4 and max(card.values()) > 2 and tier == "quick":
                 continue
             add("mn", mname, nodes, card, dict(scopes=scopes))
-            add("fg", mname, nodes, card, dict(scopes=scopes))
+            if mname != "mdup":  # a FactorGraph cannot hold two equal factors at all (C14 known finding): nothing for belief propagation to run on
+                add("fg", mname, nodes, card, dict(scopes=scopes))
     # operation sequences on ONE engine object (stale calibration state must not leak into later answers)
     SEQS = [["max_calibrate", "query"], ["calibrate", "query"], ["max_calibrate", "map_query"], ["query", "max_calibrate", "query"],
             ["calibrate", "max_calibrate", "query"], ["map_query", "query"]]
